@@ -119,6 +119,17 @@ impl From<Operand> for u64 {
     }
 }
 
+impl MemOperand {
+    /// The same operand without its segment override. LEA computes the offset only, the
+    /// segment base is never added.
+    pub(crate) fn without_segment(self) -> Self {
+        Self {
+            segment: None,
+            ..self
+        }
+    }
+}
+
 impl Axecutor {
     pub(crate) fn mem_addr(&self, o: MemOperand) -> u64 {
         let MemOperand {
